@@ -19,7 +19,7 @@ atype:  i:<min>:<max>:<modulus>:<mv>  (inf, -inf)  |  b:T b:F b:U  |  e:<int> e:
 cv:     n (None) | i<int> | bT | bF | e<int> | x (raised)
 expr:   (c n) (t) (f) (ec n) (u id size) (s id size) (d id size) (ss id) (bl id) (el id)
         (g id <atype>) (+ a b) (- a b) (* a b) (== a b) (!= a b) (< a b) (<= a b) (> a b)
-        (>= a b) (&& a b) (|| a b) (? c t f) (max a …) (ub a) (lb a) (cref a);  size ? = unknown
+        (>= a b) (&& a b) (|| a b) (? c t f) (max a …) (ub a) (lb a) (cref a) (vref a);  size ? = unknown
 atree:  (F <atype> child…) function node, (N <atype>) anything else
 -/
 
@@ -155,6 +155,7 @@ partial def exprOf : SExp → Option Expr
   | .list [.atom "ub", a] => do pure (.upper (← exprOf a))
   | .list [.atom "lb", a] => do pure (.lower (← exprOf a))
   | .list [.atom "cref", a] => do pure (.cref (← exprOf a))
+  | .list [.atom "vref", a] => do pure (.vref (← exprOf a))
   | .list [.atom op, a, b] => do
     let op ← binOpOf op
     pure (.bin op (← exprOf a) (← exprOf b))
